@@ -70,8 +70,10 @@ func (k *c48KV) PrefixList(ctx context.Context, prefix []byte) ([][]byte, error)
 
 type c48Writer struct{ msgs []*dns.Msg }
 
-func (w *c48Writer) LocalAddr() net.Addr         { return &net.UDPAddr{IP: net.IPv4(127, 0, 0, 1), Port: 53} }
-func (w *c48Writer) RemoteAddr() net.Addr        { return &net.UDPAddr{IP: net.IPv4(127, 0, 0, 1), Port: 5353} }
+func (w *c48Writer) LocalAddr() net.Addr { return &net.UDPAddr{IP: net.IPv4(127, 0, 0, 1), Port: 53} }
+func (w *c48Writer) RemoteAddr() net.Addr {
+	return &net.UDPAddr{IP: net.IPv4(127, 0, 0, 1), Port: 5353}
+}
 func (w *c48Writer) WriteMsg(m *dns.Msg) error   { w.msgs = append(w.msgs, m.Copy()); return nil }
 func (w *c48Writer) Write(b []byte) (int, error) { return len(b), nil }
 func (w *c48Writer) Close() error                { return nil }
